@@ -162,41 +162,43 @@ def _check_wrapped_impl(args) -> dict:
 	from rogw.tranp.errors import Errors
 	from rogw.tranp.view.error_render import ErrorRender
 	enter_scratch('verif-c16w-')
-	parts = []
-	for i, c in enumerate(cases):
-		a = c['ast']
-		l, r, op = a['l']['s'], a['r']['s'], a['op']
-		parts.append(f'def w{first + i}({srcmodel.PARAMS}) -> {c["type"]}:\n\t"""doc {i}\n\tsecond line"""\n\tv = ({l} {op}\n\t\t\t{r})\n\tu = max({l},\n\t\t{r})\n\tdd = {{\n\t\t\'k\': {l},\n\t}}\n\treturn ({l} {op}\n\t\t{r})\n')
-	program = '\n'.join(parts)
-	os.makedirs('vm', exist_ok=True)
-	with open('vm/wrapped.py', 'w') as f:
-		f.write(program)
-	lines = program.split('\n')
 	failures, nodes = [], 0
-	module = Env().load('vm.wrapped')
-	failures += _tree_laws(module.entrypoint, lines, 'wrapped layouts')
-	for node in module.entrypoint.procedural():
-		sm = node.source_map
-		(bl, bc), (el, ec) = sm['begin'], sm['end']
-		if (bl, bc, el, ec) == (0, 0, 0, 0) or type(node).__name__ in ('Empty', 'Proxy'):
-			continue
-		nodes += 1
-		try:
-			raise Errors.OperationNotAllowed(node, 'verif')
-		except Errors.OperationNotAllowed as raised:
-			qlines = str(ErrorRender(raised)).split('\n')
-		try:
-			at = next(k for k, ln in enumerate(qlines) if ln.startswith('via Node:'))
-			loc, shown, mark = qlines[at + 1].strip(), qlines[at + 2][len('    >>> '):], qlines[at + 3][len('        '):]
-		except (StopIteration, IndexError):
-			failures.append({'clause': 'Quotation', 'detail': f'no quotation rendered for {type(node).__name__} at {sm}', 'text': 'wrapped layouts', 'kind': f'{type(node).__name__}:multi-line'})
-			continue
-		line = lines[bl - 1].replace('\t', ' ')
-		lo, hi = mark_range(bl, bc - 1, el, ec - 1, len(line))
-		want = ' ' * lo + '^' * (hi - lo)
-		if shown != line or mark != want or not loc.endswith(f':{bl}'):
-			shape = 'one-line' if bl == el else ('multi-line:end-right-of-begin' if ec > bc else 'multi-line:end-left-of-begin')
-			failures.append({'clause': 'Quotation', 'detail': f'{type(node).__name__} spanning ({bl},{bc})..({el},{ec}): quoted {shown!r} / {mark!r} at {loc}; the rule gives {line!r} / {want!r} line {bl}', 'text': 'wrapped layouts', 'kind': f'{shape}'})
+	# two generations of one file path in one process: the quotation shows the file as it is NOW
+	for generation, ordered in enumerate((cases, list(reversed(cases)))):
+		parts = ['# second generation of the same path', ''] if generation else []
+		for i, c in enumerate(ordered):
+			a = c['ast']
+			l, r, op = a['l']['s'], a['r']['s'], a['op']
+			parts.append(f'def w{first + i}({srcmodel.PARAMS}) -> {c["type"]}:\n\t"""doc {i}\n\tsecond line"""\n\tv = ({l} {op}\n\t\t\t{r})\n\tu = max({l},\n\t\t{r})\n\tdd = {{\n\t\t\'k\': {l},\n\t}}\n\treturn ({l} {op}\n\t\t{r})\n')
+		program = '\n'.join(parts)
+		os.makedirs('vm', exist_ok=True)
+		with open('vm/wrapped.py', 'w') as f:
+			f.write(program)
+		lines = program.split('\n')
+		module = Env().load('vm.wrapped')
+		failures += _tree_laws(module.entrypoint, lines, 'wrapped layouts')
+		for node in module.entrypoint.procedural():
+			sm = node.source_map
+			(bl, bc), (el, ec) = sm['begin'], sm['end']
+			if (bl, bc, el, ec) == (0, 0, 0, 0) or type(node).__name__ in ('Empty', 'Proxy'):
+				continue
+			nodes += 1
+			try:
+				raise Errors.OperationNotAllowed(node, 'verif')
+			except Errors.OperationNotAllowed as raised:
+				qlines = str(ErrorRender(raised)).split('\n')
+			try:
+				at = next(k for k, ln in enumerate(qlines) if ln.startswith('via Node:'))
+				loc, shown, mark = qlines[at + 1].strip(), qlines[at + 2][len('    >>> '):], qlines[at + 3][len('        '):]
+			except (StopIteration, IndexError):
+				failures.append({'clause': 'Quotation', 'detail': f'no quotation rendered for {type(node).__name__} at {sm}', 'text': 'wrapped layouts', 'kind': f'{type(node).__name__}:multi-line'})
+				continue
+			line = lines[bl - 1].replace('\t', ' ')
+			lo, hi = mark_range(bl, bc - 1, el, ec - 1, len(line))
+			want = ' ' * lo + '^' * (hi - lo)
+			if shown != line or mark != want or not loc.endswith(f':{bl}'):
+				shape = 'one-line' if bl == el else ('multi-line:end-right-of-begin' if ec > bc else 'multi-line:end-left-of-begin')
+				failures.append({'clause': 'Quotation', 'detail': f'{type(node).__name__} spanning ({bl},{bc})..({el},{ec}): quoted {shown!r} / {mark!r} at {loc}; the rule gives {line!r} / {want!r} line {bl}', 'text': 'wrapped layouts', 'kind': f'{shape}' + (':file-rewritten' if generation else '')})
 	return {'failures': failures, 'nodes': nodes}
 
 
